@@ -10,7 +10,7 @@ Import ListNotations.
 Open Scope Z_scope.
 
 Theorem C03_values_complete_sorted_causal ops r l :
-  wf ops -> Z.of_nat (length ops) < two63 -> nth_error (s_logs (run ops)) r = Some l -> order_total l ->
+  wf ops -> hist_bound ops < two63 -> nth_error (s_logs (run ops)) r = Some l -> order_total l ->
   exists v, values l = Some v /\
     NoDup (okeys v) /\                                                  (* each entry once *)
     (forall k e, In (k, e) v <-> In (k, e) (l_entries l)) /\            (* exactly the log's entries *)
@@ -29,7 +29,7 @@ Qed.
    replicas (of one history) holding the same entries under the same total ordering have identical
    linearisations *)
 Theorem C03_depends_only_on_entries ops r1 r2 l1 l2 :
-  wf ops -> Z.of_nat (length ops) < two63 ->
+  wf ops -> hist_bound ops < two63 ->
   nth_error (s_logs (run ops)) r1 = Some l1 -> nth_error (s_logs (run ops)) r2 = Some l2 ->
   order_total l1 -> order_total l2 ->
   (forall k e, In (k, e) (l_entries l1) <-> In (k, e) (l_entries l2)) ->
@@ -45,9 +45,21 @@ Qed.
 
 From IpfsLog Require Import Model.ExampleHist Proofs.WfBool.
 Example C03_nonvacuous :
-  wf ex_hist /\ Z.of_nat (length ex_hist) < two63 /\
+  wf ex_hist /\ hist_bound ex_hist < two63 /\
   map (fun l => (l_sort l, option_map okeys (values l))) (firstn 1 (s_logs (run ex_hist))) =
   [(SHash, Some [101; 201; 301; 102; 302]%N)].
+Proof.
+  split; [apply wfb_wf; vm_compute; reflexivity|]. split; [vm_compute; reflexivity|].
+  vm_compute. reflexivity.
+Qed.
+
+(* the theorems cover replicas opened with a clock of their own: the premises hold of a history whose
+   clocks start beyond 2^53, and the appended entries continue from there *)
+Example C03_seeded_clocks_nonvacuous :
+  wf ex_hist_seeded /\ hist_bound ex_hist_seeded < two63 /\
+  map (fun l => option_map (fun v => (okeys v, map e_time (oslice v))) (values l)) (firstn 1 (s_logs (run ex_hist_seeded))) =
+  [Some ([301; 201; 101; 102; 202; 302]%N,
+         [1; 9007199254740993; 1700000000000000002; 1700000000000000003; 1700000000000000004; 1700000000000000005])].
 Proof.
   split; [apply wfb_wf; vm_compute; reflexivity|]. split; [vm_compute; reflexivity|].
   vm_compute. reflexivity.
@@ -65,3 +77,4 @@ Print Assumptions C03_values_complete_sorted_causal.
 Print Assumptions C03_depends_only_on_entries.
 Print Assumptions C03_nonvacuous.
 Print Assumptions C03_ties_are_excluded.
+Print Assumptions C03_seeded_clocks_nonvacuous.
